@@ -207,7 +207,10 @@ public:
     {
         start_us = start_receive.usec(); end_us = end_receive.usec(); interval_us = connection_interval.usec();
         ++scheduled_events;
-        return front_t::schedule_connection_event( ch, start_receive, end_receive, connection_interval );
+        pending = radio_state::nothing;
+        const delta_time result = front_t::schedule_connection_event( ch, start_receive, end_receive, connection_interval );
+        if ( pending != radio_state::connection_event ) ++too_late_events;      // the front end reports it as timeout() from its next run()
+        return result;
     }
 
 private:
